@@ -275,20 +275,5 @@ def checkC06 (d : IRDoc) (impl : Json) : PropOut := Id.run do
            nontrivial := visible.any fun (_, r) => !r.params.isEmpty }
 
 
-def irHandler : Handler := fun prop input impl => do
-  let d := parseIRDoc input
-  let implJ := impl.getD Json.null
-  let out : PropOut ← match prop with
-    | "C01" => pure (checkC01 d implJ)
-    | "C04" => pure (checkC04 d implJ)
-    | "C06" => pure (checkC06 d implJ)
-    | p => throw s!"mode ir: no check for property {p}"
-  let tag (pre : String) (f : String) :=
-    if f.length > 4 && f.get 0 = 'C' && (f.splitOn "-F").length > 1 && (f.splitOn ":").length > 1 && ((f.splitOn ":")[0]!).length ≤ 8
-    then pre ++ f else pre ++ "new:" ++ f
-  let implFails := if impl.isNone then ["no-answer"] else out.implFails
-  pure { model := out.model, implView := some out.implView, specModel := out.modelFails.isEmpty, specImpl := implFails.isEmpty,
-         nontrivial := out.nontrivial,
-         notes := (implFails.take 8).map (tag "implfail:") ++ (out.modelFails.take 8).map (tag "modelfail:") ++ out.notes }
 
 end Gleece.Driver
